@@ -142,3 +142,56 @@ Theorem uid_pairs_in_born born pairs p : (forall ij, In ij pairs -> fst ij < len
 Proof.
   intros B H. unfold uid_pairs in H. apply in_map_iff in H as [ij [<- Hin]]. destruct (B ij Hin) as [B1 B2]. cbn. split; apply nth_In; assumption.
 Qed.
+
+(* ---- Erdos-Renyi pair numbers *)
+Lemma lxor_lt a b n : (0 <= n -> 0 <= a < 2 ^ n -> 0 <= b < 2 ^ n -> 0 <= Z.lxor a b < 2 ^ n)%Z.
+Proof.
+  intros Hn Ha Hb. split; [apply Z.lxor_nonneg; lia|].
+  destruct (Z.eq_dec (Z.lxor a b) 0) as [E|E]; [rewrite E; apply Z.pow_pos_nonneg; lia|].
+  assert (P : (0 < Z.lxor a b)%Z) by (pose proof (proj2 (Z.lxor_nonneg a b) ltac:(lia)); lia).
+  assert (Hn0 : (0 < n)%Z).
+  { destruct (Z.eq_dec n 0) as [->|]; [|lia]. exfalso. change (2 ^ 0)%Z with 1%Z in *. assert (a = 0%Z) by lia. assert (b = 0%Z) by lia. subst. apply E. reflexivity. }
+  apply Z.log2_lt_pow2; [exact P|].
+  pose proof (Z.log2_lxor a b ltac:(lia) ltac:(lia)) as L.
+  assert (La : (Z.log2 a < n)%Z) by (destruct (Z.eq_dec a 0) as [->|]; [cbn; lia|apply Z.log2_lt_pow2; lia]).
+  assert (Lb : (Z.log2 b < n)%Z) by (destruct (Z.eq_dec b 0) as [->|]; [cbn; lia|apply Z.log2_lt_pow2; lia]).
+  lia.
+Qed.
+
+Lemma combine_bits_range a b : (0 <= combine_bits a b < two64)%Z.
+Proof.
+  unfold combine_bits. change two64 with (2 ^ 64)%Z. apply lxor_lt; [lia| |]; apply Z.mod_pos_bound; reflexivity.
+Qed.
+
+Local Open Scope Q_scope.
+(* unsigned: every pair number lies in [0, 1] *)
+Lemma combine_u64_unit_interval a b : 0 <= combine_u64 a b <= 1.
+Proof.
+  unfold combine_u64. pose proof (combine_bits_range a b) as [L U].
+  assert (D : 0 < inject_Z (two64 - 1)) by (change 0 with (inject_Z 0); rewrite <- Zlt_Qlt; reflexivity).
+  split.
+  - apply Qle_shift_div_l; [exact D|]. rewrite Qmult_0_l. change 0 with (inject_Z 0). rewrite <- Zle_Qle. exact L.
+  - apply Qle_shift_div_r; [exact D|]. rewrite Qmult_1_l. rewrite <- Zle_Qle. lia.
+Qed.
+
+(* unsigned: the pair is an edge exactly when its 64-bit number is at most p (2^64 - 1): a fraction of all 2^64 bit patterns within 2^-64 of p *)
+Lemma er_edge_unsigned_law a b p : er_edge (combine_u64 a b) p = true <-> inject_Z (combine_bits a b) <= p * inject_Z (two64 - 1).
+Proof.
+  unfold er_edge, combine_u64. rewrite Qle_bool_iff.
+  assert (D : 0 < inject_Z (two64 - 1)) by (change 0 with (inject_Z 0); rewrite <- Zlt_Qlt; reflexivity).
+  split; intros H.
+  - assert (Nz : ~ inject_Z (two64 - 1) == 0) by (intros E; rewrite E in D; apply (Qlt_irrefl 0 D)).
+    assert (E : inject_Z (combine_bits a b) == inject_Z (combine_bits a b) / inject_Z (two64 - 1) * inject_Z (two64 - 1)) by (field; exact Nz).
+    rewrite E. apply Qmult_le_compat_r; [exact H|apply Qlt_le_weak; exact D].
+  - apply Qle_shift_div_r; [exact D|exact H].
+Qed.
+
+(* signed reading of the same bits: the upper half of the bit patterns gives a NEGATIVE number, which passes r <= p for every probability p >= 0 *)
+Lemma er_edge_signed_accepts_upper_half a b p : 0 <= p -> (two64 / 2 <= combine_bits a b)%Z -> er_edge (combine_i64 a b) p = true.
+Proof.
+  intros Hp Hc. unfold er_edge, combine_i64, as_signed64. rewrite Qle_bool_iff.
+  destruct (Z.ltb_spec (combine_bits a b) (two64 / 2)) as [L|_]; [lia|].
+  pose proof (combine_bits_range a b) as [_ U].
+  assert (D : 0 < inject_Z (two64 - 1)) by (change 0 with (inject_Z 0); rewrite <- Zlt_Qlt; reflexivity).
+  apply Qle_trans with 0; [|exact Hp]. apply Qle_shift_div_r; [exact D|]. rewrite Qmult_0_l. change 0 with (inject_Z 0). rewrite <- Zle_Qle. lia.
+Qed.
